@@ -209,11 +209,24 @@ class Normalizer:
                 fn = f'{recv}.{e.func.attr}'
             kws = [f'{k.arg}={self.poly(k.value).canon()}' for k in e.keywords]
             return Poly.atom(f'{fn}({",".join([a.canon() for a in args] + sorted(kws))})')
+        if isinstance(e, (ast.Attribute, ast.Subscript)):
+            k = self.text(e)
+            if k in self.env and k not in self._busy:
+                v = self.env[k]
+                if isinstance(v, Poly):
+                    return v
         if isinstance(e, ast.Attribute):
             return Poly.atom(f'{self.poly(e.value).canon()}.{e.attr}')
         if isinstance(e, ast.Subscript):
             return Poly.atom(f'{self.poly(e.value).canon()}[{self.text(e.slice)}]')
         if isinstance(e, ast.IfExp):
+            t = e.test
+            if isinstance(t, ast.Compare) and len(t.ops) == 1 and isinstance(t.ops[0], ast.Is) \
+                    and isinstance(t.comparators[0], ast.Constant) and t.comparators[0].value is None:
+                flipped = ast.Compare(left=t.left, ops=[ast.IsNot()], comparators=t.comparators)
+                return self.poly(ast.IfExp(test=flipped, body=e.orelse, orelse=e.body))
+            if isinstance(t, ast.UnaryOp) and isinstance(t.op, ast.Not):
+                return self.poly(ast.IfExp(test=t.operand, body=e.orelse, orelse=e.body))
             return Poly.atom(f'ite({self.text(e.test)},{self.poly(e.body).canon()},{self.poly(e.orelse).canon()})')
         return Poly.atom(self.text(e))
 
